@@ -25,6 +25,8 @@ for i in ids:
         text = text + " " + R6[i]
     if i in globals().get('R7', {}):
         text = text + " " + R7[i]
+    if i in globals().get('R8', {}):
+        text = text + " " + R8[i]
     checks.append({
         "property_id": i,
         "quick_cmd": f"bin/vcheck -property {i} -tier quick",
